@@ -1,0 +1,153 @@
+//go:build verif
+
+package mp4
+
+// Property C08: lazy-mdat mode is observationally equal to in-memory mode.
+//
+// Both modes are stated against the SAME specification: "the file" is the byte array ghost(rs).rdata of the abstract
+// ReadSeeker (length ghost(rs).rlen); an mdat box is described by (StartPos, header length, payload length); the bytes of
+// the range (start, size) are fileByte(rs, start+j), 0 <= j < size.
+
+// ---------------------------------------------------------------- specification functions
+// header length and payload length of an mdat box, whatever the mode
+//@ spec mdatHdrLen(m *MdatBox) uint64 = ite(m.LargeSize, uint64(16), uint64(8))
+//@ spec mdatPayLen(m *MdatBox) uint64 = ite(m.lazyDataSize > 0, m.lazyDataSize, uint64(len(m.Data)))
+//@ spec mdatPayStart(m *MdatBox) uint64 = m.StartPos + mdatHdrLen(m)
+// lazy boxes carry no bytes (doc of SetLazyDataSize: "Don't put any data in m.Data in this mode")
+//@ pred mdatLazyRep(m *MdatBox) = m.lazyDataSize > 0 ==> len(m.Data) == 0 && len(m.DataParts) == 0
+// a byte of the file behind the abstract ReadSeeker
+//@ spec fileByte(rs io.ReadSeeker, p int) byte = ghost(rs).rdata[p]
+// in-memory payload == the file's bytes at the payload position (what DecodeMdat/DecodeMdatSR store)
+//@ pred mdatMirror(m *MdatBox, rs io.ReadSeeker) = forall k uint64 :: k < uint64(len(m.Data)) ==> m.Data[k] == fileByte(rs, int(mdatPayStart(m) + k))
+// (start, size) is a byte range inside the payload of m (start is a file position); the last byte may be the payload's last byte
+//@ pred mdatRange(m *MdatBox, start int64, size int64) = 0 <= size && size <= 1<<48 && 0 <= start && uint64(start) >= mdatPayStart(m) && uint64(start) - mdatPayStart(m) <= mdatPayLen(m) && uint64(start) - mdatPayStart(m) + uint64(size) <= mdatPayLen(m)
+// positions are file positions: far below 2^62
+//@ pred mdatPosOK(m *MdatBox) = m.StartPos <= 1<<56 && m.lazyDataSize <= 1<<56
+
+// ---------------------------------------------------------------- the three decoders: same tree, sizes, positions
+//@ schema mdatDecC08 func ^DecodeMdat(SR|Lazily)?$
+//@   ensures[C08] result1 == nil ==> result0.(*MdatBox).HeaderSize() == uint64(p0.Hdrlen) && result0.(*MdatBox).PayloadAbsoluteOffset() == p1 + uint64(p0.Hdrlen)
+//@   ensures[C08] result1 == nil ==> mdatLazyRep(result0.(*MdatBox))
+//@ func DecodeMdat
+//@   ensures[C08] result1 == nil ==> mdatPayLen(result0.(*MdatBox)) == hdr.Size - uint64(hdr.Hdrlen) && !result0.(*MdatBox).IsLazy()
+//@ func DecodeMdatSR
+//@   ensures[C08] result1 == nil && sr.(*bits.FixedSliceReader).err == nil ==> mdatPayLen(result0.(*MdatBox)) == hdr.Size - uint64(hdr.Hdrlen) && !result0.(*MdatBox).IsLazy()
+//@   ensures[C08] result1 == nil && sr.(*bits.FixedSliceReader).err == nil ==> result0.(*MdatBox).Data == sr.(*bits.FixedSliceReader).slice[old(sr.(*bits.FixedSliceReader).pos):sr.(*bits.FixedSliceReader).pos] && sr.(*bits.FixedSliceReader).pos == old(sr.(*bits.FixedSliceReader).pos) + int(hdr.Size - uint64(hdr.Hdrlen))
+//@ func DecodeMdatLazily
+//@   ensures[C08] result1 == nil ==> mdatPayLen(result0.(*MdatBox)) == hdr.Size - uint64(hdr.Hdrlen) && result0.(*MdatBox).IsLazy() == (hdr.Size > uint64(hdr.Hdrlen))
+//@   ensures[C08] result1 == nil ==> result0.(*MdatBox).Size() == hdr.Size
+
+// ---------------------------------------------------------------- ReadData: both modes return the file's bytes of the range
+//@ func (*MdatBox).ReadData
+//@   requires m != nil && mdatPosOK(m)
+//@   requires 0 <= size && size <= 1<<48
+//@   requires m.lazyDataSize == 0 && rs != nil ==> mdatMirror(m, rs)
+//@   ensures[C08] result1 == nil ==> len(result0) == int(size)
+//@   ensures[C08] result1 == nil && m.lazyDataSize == 0 ==> mdatRange(m, start, size) && result0 == m.Data[int(uint64(start) - mdatPayStart(m)):int(uint64(start) - mdatPayStart(m)) + int(size)]
+//@   ensures[C08] result1 == nil && rs != nil && 0 <= start && start <= int64(ghost(rs).rlen) ==> forall j uint64 :: j < uint64(size) ==> result0[j] == fileByte(rs, int(uint64(start) + j))
+// completeness in memory mode. The property demands every range inside the payload, "including ranges that end at the last
+// byte": clause (F) below. The code rejects exactly the ranges whose end is the payload end (and the empty range at the
+// end): (F) FAILS (finding); what the code does guarantee is the clause before it.
+//@   ensures[C08] m.lazyDataSize == 0 && len(m.DataParts) == 0 && uint64(start) - mdatPayStart(m) < mdatPayLen(m) && uint64(start) - mdatPayStart(m) + uint64(size) < mdatPayLen(m) ==> result1 == nil
+//@   ensures[C08] m.lazyDataSize == 0 && len(m.DataParts) == 0 && mdatRange(m, start, size) ==> result1 == nil
+
+// ---------------------------------------------------------------- accessors
+//@ func (*MdatBox).HeaderSize
+//@   requires m != nil
+//@   ensures result == mdatHdrLen(m)
+//@   assigns nothing
+//@ func (*MdatBox).PayloadAbsoluteOffset
+//@   requires m != nil
+//@   ensures result == mdatPayStart(m)
+//@   assigns nothing
+//@ func (*MdatBox).IsLazy
+//@   requires m != nil
+//@   ensures result == (m.lazyDataSize > 0)
+//@   assigns nothing
+//@ func (*MdatBox).GetLazyDataSize
+//@   requires m != nil
+//@   ensures result == m.lazyDataSize
+//@   assigns nothing
+
+// ---------------------------------------------------------------- CopyData
+// memory mode: exactly the payload slice of the range is handed to w in one Write (trace chunk = that slice) and its length is
+// reported. lazy mode: Seek(start) then io.CopyN(w, rs, size); io.CopyN has no model in the verifier (NOT DECIDED).
+//@ func (*MdatBox).CopyData
+//@   requires m != nil && mdatPosOK(m) && w != nil
+//@   requires 0 <= size && size <= 1<<48
+//@   ensures[C08] err == nil && m.lazyDataSize == 0 ==> mdatRange(m, start, size) && nrWritten == size && ghost(w).wlen == old(ghost(w).wlen) + int(size)
+//@   ensures[C08] err == nil && m.lazyDataSize == 0 ==> ghost(w).tr == trApp(old(ghost(w).tr), chBytes(m.Data[int(uint64(start) - mdatPayStart(m)):int(uint64(start) - mdatPayStart(m)) + int(size)]))
+//@   ensures[C08] m.lazyDataSize > 0 && rs == nil ==> err != nil
+
+// ---------------------------------------------------------------- encoding a lazy mdat box writes exactly its header
+// The header carries the full box size (header + payload left on disk), so header + copied payload is the original box.
+//@ func EncodeHeaderWithSizeSW
+//@   inline
+//@ func EncodeHeaderWithSize
+//@   requires w != nil
+//@   ensures result == nil ==> largeSize || boxSize < 1<<32
+//@   ensures[C08] result == nil ==> ghost(w).wlen == old(ghost(w).wlen) + ite(largeSize, 16, 8)
+//@   assigns ghost(w).wlen, ghost(w).wz, ghost(w).wlegal, ghost(w).wesc, ghost(w).wtight, ghost(w).pay, ghost(w).plen, ghost(w).wdata, ghost(w).tr
+
+// mdatLazy(m): a lazily decoded box (payload on disk, nothing in memory)
+//@ pred mdatLazy(m *MdatBox) = m.lazyDataSize > 0 && len(m.Data) == 0 && len(m.DataParts) == 0
+// the box size announced by the header
+//@ spec mdatBoxSize(m *MdatBox) uint64 = mdatHdrLen(m) + mdatPayLen(m)
+
+//@ func (*MdatBox).EncodeSW
+//@   requires mdatPosOK(m)
+//@   ensures[C08] result == nil && old(mdatLazy(m)) ==> mdatLazy(m) && m.lazyDataSize == old(m.lazyDataSize) && sw.(*bits.FixedSliceWriter).off == old(sw.(*bits.FixedSliceWriter).off) + int(mdatHdrLen(m))
+//@   ensures[C08] result == nil && old(mdatLazy(m)) ==> sw.(*bits.FixedSliceWriter).buf[old(sw.(*bits.FixedSliceWriter).off)+4] == 109 && sw.(*bits.FixedSliceWriter).buf[old(sw.(*bits.FixedSliceWriter).off)+5] == 100 && sw.(*bits.FixedSliceWriter).buf[old(sw.(*bits.FixedSliceWriter).off)+6] == 97 && sw.(*bits.FixedSliceWriter).buf[old(sw.(*bits.FixedSliceWriter).off)+7] == 116
+//@   ensures[C08] result == nil && old(mdatLazy(m)) && !m.LargeSize ==> uint64(be32(sw.(*bits.FixedSliceWriter).buf, old(sw.(*bits.FixedSliceWriter).off))) == mdatBoxSize(m)
+//@   ensures[C08] result == nil && old(mdatLazy(m)) && m.LargeSize ==> be32(sw.(*bits.FixedSliceWriter).buf, old(sw.(*bits.FixedSliceWriter).off)) == 1
+//@   ensures[C08] result == nil && old(mdatLazy(m)) && m.LargeSize ==> be64(sw.(*bits.FixedSliceWriter).buf, old(sw.(*bits.FixedSliceWriter).off)+8) == mdatBoxSize(m)
+
+//@ func (*MdatBox).Encode
+//@   requires mdatPosOK(m)
+//@   ensures[C08] result == nil && old(mdatLazy(m)) ==> mdatLazy(m) && m.lazyDataSize == old(m.lazyDataSize) && ghost(w).wlen == old(ghost(w).wlen) + int(mdatHdrLen(m))
+//@   ensures[C08] result == nil && old(mdatLazy(m)) && !m.LargeSize ==> mdatBoxSize(m) < 1<<32
+
+// strtobuf only writes into out (here: the freshly allocated header buffer)
+//@ func strtobuf
+//@   assigns out[:]
+
+// ---------------------------------------------------------------- box header as a function of the file bytes; lazy decode of an mdat box
+// fileBE32/fileBE64: big-endian integers of the file at position p; the header of the box starting at p:
+//@ spec fileBE32(r io.Reader, p int) uint32 = uint32(ghost(r).rdata[p])<<24 | uint32(ghost(r).rdata[p+1])<<16 | uint32(ghost(r).rdata[p+2])<<8 | uint32(ghost(r).rdata[p+3])
+//@ spec fileBE64(r io.Reader, p int) uint64 = uint64(fileBE32(r, p))<<32 | uint64(fileBE32(r, p+4))
+//@ spec fileHdrLen(r io.Reader, p int) int = ite(fileBE32(r, p) == 1, 16, 8)
+//@ spec fileBoxSize(r io.Reader, p int) uint64 = ite(fileBE32(r, p) == 1, fileBE64(r, p+8), uint64(fileBE32(r, p)))
+//@ pred fileIsMdat(r io.Reader, p int) = ghost(r).rdata[p+4] == 109 && ghost(r).rdata[p+5] == 100 && ghost(r).rdata[p+6] == 97 && ghost(r).rdata[p+7] == 116
+
+//@ func DecodeHeader
+//@   ensures[C08] result1 == nil ==> ghost(r).rpos == old(ghost(r).rpos) + result0.Hdrlen && ghost(r).rdata == old(ghost(r).rdata)
+//@   ensures[C08] result1 == nil ==> result0.Hdrlen == fileHdrLen(r, old(ghost(r).rpos)) && result0.Size == fileBoxSize(r, old(ghost(r).rpos))
+//@   ensures[C08] result1 == nil ==> (result0.Name == "mdat") == fileIsMdat(r, old(ghost(r).rpos))
+
+// A box whose type bytes are "mdat" is decoded lazily into an MdatBox that describes exactly that box of the file: same start
+// position, header length, payload length and size as the header announces; nothing in memory.
+//@ func DecodeBoxLazyMdat
+//@   uses C03
+//@   ensures[C08] result1 == nil && old(fileIsMdat(r, ghost(r).rpos)) ==> typeis(result0, "*MdatBox") && result0.(*MdatBox).StartPos == startPos && mdatLazyRep(result0.(*MdatBox)) && len(result0.(*MdatBox).Data) == 0
+//@   ensures[C08] result1 == nil && old(fileIsMdat(r, ghost(r).rpos)) ==> mdatHdrLen(result0.(*MdatBox)) == uint64(old(fileHdrLen(r, ghost(r).rpos))) && mdatPayLen(result0.(*MdatBox)) == old(fileBoxSize(r, ghost(r).rpos)) - uint64(old(fileHdrLen(r, ghost(r).rpos))) && result0.(*MdatBox).Size() == old(fileBoxSize(r, ghost(r).rpos))
+
+// ---------------------------------------------------------------- mutators and the lazy representation (mdatLazyRep)
+// established by the three decoders (above); SetData leaves lazy mode; SetLazyDataSize keeps it on a box without bytes.
+// AddSampleData/AddSampleDataPart on a lazy box break it (documented misuse: "Don't put any data in m.Data in this mode").
+//@ func (*MdatBox).SetData
+//@   requires m != nil
+//@   ensures m.Data == data && m.lazyDataSize == 0
+//@   ensures[C08] len(m.DataParts) == old(len(m.DataParts)) && mdatLazyRep(m) && mdatPayLen(m) == uint64(len(data))
+//@   assigns m.Data, m.lazyDataSize
+//@ func (*MdatBox).SetLazyDataSize
+//@   requires m != nil
+//@   ensures m.lazyDataSize == newSize
+//@   ensures[C08] old(len(m.Data) == 0 && len(m.DataParts) == 0) ==> mdatLazyRep(m) && mdatPayLen(m) == newSize
+//@   assigns m.lazyDataSize
+
+// ---------------------------------------------------------------- NOT DECIDED (see report)
+// * lazy path of CopyData and of CopySampleData (io.CopyN, rs.Read have no model in the verifier; Seek is modelled for
+//   io.SeekStart only, so the reader position after DecodeBoxLazyMdat's Seek(remaining, io.SeekCurrent) is unknown);
+// * DecodeMdat (io.Reader): the CONTENT of Data (io.LimitReader/io.ReadAll are not connected to the reader's bytes);
+// * DecodeBox for "mdat" (dispatch through the decoder registry: values of the map are uninterpreted);
+// * whole-file equality of the two trees (DecodeFile), Info dumps, segmenter / mp4ff-crop pipelines.
